@@ -22,18 +22,18 @@ TABLE = {
             'every exit returns false. Weakenings (extra disjunct, prefix/bare/case-insensitive comparison, inner sender) leave the comparison unbound and are '
             'reported. The presented object is proven (def-use over all definitions) to be parsed from carbons/forwarded/message of parameter 0 and flagged forwarded. No client-side function rewrites the from/to of a received element.',
             'Trusts QString ==/!= to be exact; value-level facts about jidBare() for degenerate configurations are not decided.', 'DESIGN.md §2 C11'),
-    'C12': ('who-may-write analysis of the roster cache fields + abstract evaluation of the push handler for a foreign sender + control-dependence of remove/insert + session-boundary must-call',
+    'C12': ('who-may-write analysis of the roster cache fields + abstract evaluation of the push handler for a foreign sender and once per IQ type / per item subscription type (reachability of remove/insert) + session-boundary must-call',
             'Static: every write to the cached roster map is enumerated over the whole unit (whole library in thorough) and must sit in the push arm, the roster-result '
             'continuation or clear(); handleStanza is explored for "from non-empty and bare(from) != own bare": parse, acknowledgement and mutations unreachable, returns false; '
-            'remove/insert are control-dependent on the item subscription type inside one loop under case Set; new (non-resumed) sessions clear before any use; presence table writers and their cases are fixed. The entry stored for a push is the pushed item itself; ResumedStream cannot be a leftover of an earlier session.',
+            'remove is reachable exactly for subscription type Remove and insert exactly for the others, both exactly for IQ type Set (decided per enumerator, whatever the spelling of the dispatch), inside one loop over the items; new (non-resumed) sessions clear before any use; presence table writers and their cases are fixed. The entry stored for a push is the pushed item itself; ResumedStream cannot be a leftover of an earlier session.',
             'History-level equality of the view with "last roster + pushes in order" is not decided (reachability over states, not code shape).', 'DESIGN.md §2 C12'),
-    'C16': ('control dependence of every identity write + abstract evaluation of the server-side stanza handler for unauthenticated / spoofing senders + closed writer/caller sets of the routing tables',
-            'Static: every assignment to the per-connection jid must be control-dependent on respond()==Succeeded or the password reply being NoError and be built from '
+    'C16': ('abstract evaluation per verdict of the SASL server / password checker (reachability of every identity write) + abstract evaluation of the server-side stanza handler for unauthenticated / spoofing senders (predicates followed into same-file helpers) + closed writer/caller sets of the routing tables',
+            'Static: every assignment to the per-connection identity member (the one QXmppIncomingClient::jid() returns) must be reachable only for respond()==Succeeded or a password reply of NoError (handler evaluated once per verdict) and be built from '
             'saslServer->username() and the domain; handleStanza is explored with "jid empty": bind, session reply, connected and routing are unreachable; with a foreign from: '
             'routing unreachable; empty from: stamped from the authenticated jid on every routed path; the password-reply handler is explored per checker verdict. The base password checker reports a failed lookup and hands out no digest for it.',
             'Behaviour over all client scripts on real sockets and third-party server extensions is not decided; the password checker is trusted.', 'DESIGN.md §2 C16'),
-    'C17': ('control-dependence region map of every message field in the one writer and the one reader (who-is-written-under-which-mode-guard) + compile-time witness of the mode predicate',
-            'Static: each QXmppMessagePrivate field read in serializeExtensions / written in parseExtension is assigned the mode guard it is control-dependent on; the conversational '
+    'C17': ('region map of every message field in the writer and the reader: the set of SceMode values under which each read/write is reachable (abstract evaluation per mode, mode guards evaluated not matched, composed across lambdas and same-file helpers) + compile-time witness of the mode predicate',
+            'Static: each QXmppMessagePrivate field read in serializeExtensions / written in parseExtension (and in the helpers they hand the message to) is assigned the set of modes under which that access is reachable; the conversational '
             'fields named by the property may only appear under the Sensitive guard (a leak is one element outside its guard, visible as region membership for every message at once), '
             'each field in exactly one part, writer and reader agree; operator&(SceMode,SceMode) is decided by the compiler for all 9 pairs; the encrypted send path passes the constant ScePublic. The encrypted message is never handed to the wire as an object (which would serialize it with SceAll). The pass driver parseExtensions writes no field owned by one part outside the matching mode guard.',
             'Value-level recovery of every field after the two-pass parse and unknown application extensions are not decided; OMEMO code is not part of the configured build.', 'DESIGN.md §2 C17'),
@@ -106,7 +106,7 @@ TABLE = {
             'Static: the IBB block counter, the receiver\'s expectation and QXmppIbbDataIq::m_seq have the same unsigned 16-bit type (so both sides wrap at 65536); in ibbDataIqReceived a block is written and the expectation advanced only for a job found by (sender, session id) in transfer state with the expected sequence number, rejected blocks get an error reply; the open handler bounds the block size; the close handler and the SOCKS5 paths delegate the verdict to checkData(); '
             'checkData() cannot reach terminate(NoError) when a size was announced and differs or a hash was announced and differs; writeData counts the bytes the device accepted and hashes the same buffer. The SOCKS5 receive slot drains the socket; an announced size of 0 (unknown) never enters arithmetic or comparisons unguarded.',
             'Byte-for-byte equality of delivered and sent content for all sizes and loss patterns, and detection of corruption when the offer carries neither size nor hash, are not decided.', 'DESIGN.md §2 C19'),
-    'C20': ('sort-before-use dataflow with comparator classification (i;octet), exhaustive abstract evaluation of the identity comparator over the 81 orderings of its four keys, separator typestate over all paths of verificationString, one-source and recompute-at-emission call-structure rules',
+    'C20': ('sort-before-use dataflow with comparator classification (i;octet), exhaustive abstract evaluation of the identity comparator over the 81 orderings of its four keys, separator typestate over all paths of verificationString and of the helpers it hands the hashed string to (helper summaries), one-source and recompute-at-emission call-structure rules',
             'Static: in verificationString every loop that appends to the hashed string iterates a local copy sorted after its last mutation with a UTF-8 byte-order comparator; features are de-duplicated; multi-values are sorted before join("<"); '
             'the identity comparator returns the strict lexicographic order on (category, type, xml:lang, name) for all 81 orderings and the hashed identity string uses the same accessors in that order; every piece is terminated by "<" on every path; FORM_TYPE is taken out of the map and hashed first; SHA-1 over UTF-8, presence says sha-1; '
             'the advertised ver and the disco#info answer both derive from QXmppDiscoveryManager::capabilities() (answer modified only by setQueryNode), ver is only set by addProperCapability, which precedes every emission of the available client presence. Every multi-valued data form field type reaches the sorted join.',
@@ -155,7 +155,7 @@ def main():
             'serves_properties': [c['property_id'] for c in checks],
             'kind_free_text': 'clang-14 libTooling fact extractor (typed AST + CFG of every function, lambda and template instantiation '
                               'of the 127 library units from the real compile database) and repository-specific static rules in python: '
-                              'dominance/edge assertions, finite-domain abstract evaluation of branch conditions, typestate path exploration, '
+                              'dominance/edge assertions, finite-domain abstract evaluation of branch conditions (looking into small boolean helpers, local lambdas and free operator overloads of the repository), typestate path exploration, '
                               'call-graph closures with Qt signal/slot, timer and continuation edges, codec name agreement, compile-time witnesses',
         }],
         'checks': checks,
